@@ -176,7 +176,11 @@ def itml_fit_cases():
   for pn, ps in PRIORS:
     for bn, bs in (('defaultbounds', NoneT()), ('bounds', Arr(1, owner=frozenset({('param', 'bounds')}), dims=['nb']))):
       for h in ('fresh', 'refit'):
-        out.append(Case('%s-%s-%s' % (pn, bn, h), {'self': est('ITML', itml_hyper(ps), h), 'pairs': pairs_arr(), 'y': Arr(1, 'i', dims=['n']), 'bounds': bs}))
+        pre = None
+        if bn == 'bounds':
+          # documented: bounds on the distances -- positive or zero numbers
+          pre = lambda a: z3.ForAll([z3.Int('j!b')], TH.at1(a.bounds.term, z3.Int('j!b')) >= 0, patterns=[TH.at1(a.bounds.term, z3.Int('j!b'))])
+        out.append(Case('%s-%s-%s' % (pn, bn, h), {'self': est('ITML', itml_hyper(ps), h), 'pairs': pairs_arr(), 'y': Arr(1, 'i', dims=['n']), 'bounds': bs}, pre=pre))
   out.append(Case('identity-defaultbounds-fresh-gamma-inf-noseed',
                   {'self': est('ITML', itml_hyper(Str('identity'), 'inf', 'noseed'), 'fresh'), 'pairs': pairs_arr(), 'y': Arr(1, 'i', dims=['n']), 'bounds': NoneT()}))
   return out
